@@ -432,7 +432,7 @@ def box_err(eng, callee, a, m, fc):
     return Opaque('error')
 
 
-@ext(r'(?:std|alloc|core)::fmt::format|format::format_inner|Arguments::<.*>::new|Arguments::new|fmt::rt::Argument|std::fmt::Arguments|must_use::<String>')
+@ext(r'(?:std|alloc|core)::fmt::format|format::format_inner|Arguments::<.*>::new|Arguments::new|fmt::rt::Argument|std::fmt::Arguments|must_use::<(?:std::string::)?String>|<String as|String::|<str as ToString>|ToString>::to_string')
 def fmt_any(eng, callee, a, m, fc):
     return Opaque('fmt')
 
